@@ -16,7 +16,7 @@ PROPS = ['PGA.Props.C20']
 GEN = ['Pmutt', 'Uq']
 OBLIGATIONS = ['PGA.Estimate.' + t for t in [
     'C20_q', 'C20_SE2', 'C20_SE2_H', 'C20_SE2_Cp', 'C20_SE2_S', 'C20_no_uq', 'C20_order', 'C20_scale_q', 'C20_out_of_basis',
-    'C20_all_in_basis', 'C20_nonneg', 'C20_SE_abs', 'C20_SE_scale', 'C20_SE_real', 'C20_SE_real_scale', 'C20_tab_shipped'
+    'C20_all_in_basis', 'C20_nonneg', 'C20_SE_abs', 'C20_SE_scale', 'C20_SE_real', 'C20_SE_real_scale', 'C20_tab_shipped', 'C20_diag_dominant_psd'
     ]]
 RULE = ('case = (library with uncertainty data, ordered mapping, T).  Libraries: the three shipped ones that carry uq data, copies of them '
         'extended (through the real constructor) by one group that has data but is outside the basis, and synthetic ones with small '
